@@ -86,6 +86,10 @@ func (s *signer) AcmeAccount(endpoint, emails string, termsAgreed bool) {
 	if reflect.DeepEqual(s.account, account) {
 		return
 	}
+	// the account is only remembered while its client exists, otherwise an
+	// account that was removed from the configuration, or replaced by another
+	// one that failed to load, would not be loaded again when configured back
+	s.account = Account{}
 	s.client = nil
 	if endpoint == "" && emails == "" && !termsAgreed {
 		return
